@@ -92,10 +92,8 @@ func (f *Dotimes) Call(s *slip.Scope, args slip.List, depth int) slip.Object {
 					}
 					return tr
 				case *GoTo:
-					for i++; i < len(args); i++ {
-						if args[i] == tr.Tag {
-							break
-						}
+					if i = tr.Find(s, args, 1, depth); i < 0 {
+						return tr
 					}
 				}
 			}
